@@ -3,6 +3,9 @@
 //!   ndv <Cxx> [quick|thorough] [--seed N] [--replay FILE] [--cases N] [--shards N] [--no-evidence]
 
 mod c01;
+mod c02;
+mod c02x;
+mod c03;
 mod common;
 mod engine;
 mod prog;
@@ -59,6 +62,8 @@ fn main() {
     let args = Args { tier, seed, replay, shards, cases_override, evidence };
     let code = match prop.as_str() {
         "C01" => run::<c01::C01>(&args),
+        "C02" => run::<c02::C02>(&args),
+        "C03" => run::<c03::C03>(&args),
         other => {
             eprintln!("unknown property {other}");
             2
